@@ -205,6 +205,20 @@ CLAIMED = {
         design_ref="DESIGN.md section 5 C01",
         note="Trusted: TLC, the adapter's spelling table, process CPU time measurement (TLC has no notion of time: the bounded-time clause "
              "is decided on the replayed behaviours). One known finding ('@charset\"abc')."),
+    "C18": dict(
+        technique="TLA+ denotation of decimal literals by exact digit-sequence arithmetic (ValuesContract: Den, Canon, UnitOk; lemma "
+                  "Den(Canon(n)) = Den(n) checked by TLC on every enumerated literal), hash-colour channel arithmetic and the "
+                  "shortening-is-lossless lemma, colour-form equivalence classes; rows enumerated by TLC (Values.tla, Content.tla); "
+                  "executed through PropertyValue / ColorValue / sheet round trips; TLC trace monitor",
+        text="Exhaustive over the enumerated spaces: 3 signs x integer digit strings x fraction digit strings (<=6 digits) x 6 (quick) / "
+             "15 (thorough) units x omitLeadingZero; all 4096 short hashes and all long hashes over boundary digits x "
+             "minimizeColorHash; the 6^3 exact-percentage colour grid x 3 alpha values in every applicable written form, the 17 "
+             "CSS 2.1 keywords in 3 letter cases; component lists in every separator pattern; string and URL content from "
+             "Content.tla. TLC compares denotations (no floats in the spec): serialised literal, second serialisation, typed "
+             "value, unit, channels, shortening only when lossless, order and separators.",
+        design_ref="DESIGN.md section 5 C18",
+        note="Trusted: TLC, the adapter's lexical split of a serialised literal into sign/digits/unit and '%.15g' rendering of the typed "
+             "value. hsl() only where the CSS3 formula is exact in integers. Known findings shared with C03 for quoted content."),
 }
 PENDING = "check not built yet in this round (see DESIGN.md section 10 build order); no claim is made"
 NOT_APPLICABLE = {}
